@@ -24,10 +24,11 @@ Definition std_cmp (o : cmpop) : pyop :=
 
 Lemma bool_table_standard : forall o, lookup_op (cmpop_text o) bool_ops = Some (std_cmp o, false).
 Proof. destruct o; reflexivity. Qed.
-Lemma bool_table_and : lookup_op "&&" bool_ops = Some (PyAnd, false).
-Proof. reflexivity. Qed.
-Lemma bool_table_or : lookup_op "||" bool_ops = Some (PyOr, false).
-Proof. reflexivity. Qed.
+(* && / || : Python `a and b` (an operand) or `bool(a and b)` (a truth value); both agree on truth-valued operands *)
+Lemma bool_table_and : lookup_op "&&" bool_ops = Some (PyAnd, false) \/ lookup_op "&&" bool_ops = Some (PyAndBool, false).
+Proof. first [left; reflexivity | right; reflexivity]. Qed.
+Lemma bool_table_or : lookup_op "||" bool_ops = Some (PyOr, false) \/ lookup_op "||" bool_ops = Some (PyOrBool, false).
+Proof. first [left; reflexivity | right; reflexivity]. Qed.
 Lemma unary_minus_negates : str_in "-" unary_negating = true.
 Proof. reflexivity. Qed.
 Lemma unary_plus_identity : str_in "+" unary_negating = false.
@@ -35,8 +36,41 @@ Proof. reflexivity. Qed.
 Lemma period_not_in_chain : lookup_op "." expr_ops = None.
 Proof. reflexivity. Qed.
 
-Lemma prec_table_documented : precedence = documented_precedence.
-Proof. reflexivity. Qed.
+(* sanity of the parser over the extracted table (kept out of Model/ so that the model still builds when the table changes) *)
+Example ex_prec : parse_tokens [TNum 2; TOp Add; TNum 3; TOp Mul; TNum 4] = Some (EBin Add (ELit 2) (EBin Mul (ELit 3) (ELit 4))).
+Proof. vm_compute. reflexivity. Qed.
+Example ex_unary : parse_tokens [TNum 7; TOp Div; TOp Sub; TNum 2; TOp Div; TNum 2]
+                   = Some (EBin Div (ELit 7) (ENeg (EBin Div (ELit 2) (ELit 2)))).
+Proof. vm_compute. reflexivity. Qed.
+
+(* the extracted precedence tuple orders the operators of the language exactly as the C table does, and all of them
+   associate to the left (stated on the relative order, so that extra rows for other tokens do not matter) *)
+Definition prec_agrees (p q : string * nat) : bool :=
+  match Nat.compare (prec_level precedence (fst p)) (prec_level precedence (fst q)), Nat.compare (snd p) (snd q) with
+  | Eq, Eq | Lt, Lt | Gt, Gt => true
+  | _, _ => false
+  end.
+Definition left_and_present (p : string * nat) : bool :=
+  match assoc_of precedence (fst p) with LeftA => negb (Nat.eqb (prec_level precedence (fst p)) 0) | _ => false end.
+
+Lemma prec_table_documented :
+  (forall p q, In p c_table -> In q c_table ->
+     Nat.compare (prec_level precedence (fst p)) (prec_level precedence (fst q)) = Nat.compare (snd p) (snd q)) /\
+  (forall p, In p c_table -> assoc_of precedence (fst p) = LeftA /\ prec_level precedence (fst p) <> 0%nat) /\
+  unary_lvl = lvl Sub.
+Proof.
+  assert (H1 : forallb (fun p => forallb (prec_agrees p) c_table) c_table = true) by (vm_compute; reflexivity).
+  assert (H2 : forallb left_and_present c_table = true) by (vm_compute; reflexivity).
+  split; [|split].
+  - intros p q Hp Hq. rewrite forallb_forall in H1. specialize (H1 p Hp). rewrite forallb_forall in H1. specialize (H1 q Hq).
+    unfold prec_agrees in H1.
+    destruct (Nat.compare (prec_level precedence (fst p)) (prec_level precedence (fst q))), (Nat.compare (snd p) (snd q));
+      try reflexivity; discriminate.
+  - intros p Hp. rewrite forallb_forall in H2. specialize (H2 p Hp). unfold left_and_present in H2.
+    destruct (assoc_of precedence (fst p)); try discriminate. split; [reflexivity|].
+    intros E. rewrite E in H2. discriminate.
+  - reflexivity.
+Qed.
 
 Lemma forallb_In {A} (f : A -> bool) l : forallb f l = true -> forall x, In x l -> f x = true.
 Proof. intros H x Hx. rewrite forallb_forall in H. auto. Qed.
@@ -105,19 +139,6 @@ Proof.
   - discriminate.
 Qed.
 
-(* the integer-size suffixes: masks 0xFFFF / 0xFF / 0xF instead of word / half-word / byte, and the suffix binds
-   looser than every operator: 0xa.b + 0xb.b reads as (0xa.b + 0xb).b *)
-Theorem size_suffix_refuted :
-  (exists env e, to_opt (eval_impl env e) <> eval_spec env e) /\
-  eval_impl [] (ESize (ELit 85) SzB) = Ok 5 /\ eval_spec [] (ESize (ELit 85) SzB) = Some 85 /\
-  eval_impl [] (ESize (ELit 4386) SzH) = Ok 34 /\ eval_spec [] (ESize (ELit 4386) SzH) = Some 4386 /\
-  parse_tokens [TNum 10; TSize SzB; TOp Add; TNum 11; TSize SzB]
-    = Some (ESize (EBin Add (ESize (ELit 10) SzB) (ELit 11)) SzB).
-Proof.
-  repeat split; try (vm_compute; reflexivity).
-  exists [], (ESize (ELit 85) SzB). vm_compute. intros H; discriminate H.
-Qed.
-
 Theorem division_is_c_division_on_naturals :
   forall a b, 0 <= a -> 0 < b ->
     spec_binop Div a b = Some (Z.quot a b) /\ spec_binop Mod a b = Some (Z.rem a b).
@@ -138,6 +159,35 @@ Proof. destruct o; reflexivity. Qed.
 Lemma and4 : forall a b c d, a && b && c && d = true -> a = true /\ b = true /\ c = true /\ d = true.
 Proof. intros [] [] [] []; simpl; intros; auto; discriminate. Qed.
 
+Opaque bool_ops.
+
+Lemma and_row_01 : forall va vc v, (va = 0 \/ va = 1) -> (vc = 0 \/ vc = 1) ->
+  apply_row (lookup_op "&&" bool_ops) va vc = Ok v -> v = 0 \/ v = 1.
+Proof.
+  intros va vc v Ha Hc H. destruct bool_table_and as [E|E]; rewrite E in H; simpl in H; inversion H.
+  - destruct (va =? 0); assumption.
+  - apply b2z_01.
+Qed.
+Lemma or_row_01 : forall va vc v, (va = 0 \/ va = 1) -> (vc = 0 \/ vc = 1) ->
+  apply_row (lookup_op "||" bool_ops) va vc = Ok v -> v = 0 \/ v = 1.
+Proof.
+  intros va vc v Ha Hc H. destruct bool_table_or as [E|E]; rewrite E in H; simpl in H; inversion H.
+  - destruct (va =? 0); assumption.
+  - apply b2z_01.
+Qed.
+Lemma and_row_spec : forall va vc, (va = 0 \/ va = 1) -> (vc = 0 \/ vc = 1) ->
+  apply_row (lookup_op "&&" bool_ops) va vc = Ok (b2z (negb (va =? 0) && negb (vc =? 0))).
+Proof.
+  intros va vc Ha Hc. destruct bool_table_and as [E|E]; rewrite E; simpl; [|reflexivity].
+  destruct Ha, Hc; subst; reflexivity.
+Qed.
+Lemma or_row_spec : forall va vc, (va = 0 \/ va = 1) -> (vc = 0 \/ vc = 1) ->
+  apply_row (lookup_op "||" bool_ops) va vc = Ok (b2z (negb (va =? 0) || negb (vc =? 0))).
+Proof.
+  intros va vc Ha Hc. destruct bool_table_or as [E|E]; rewrite E; simpl; [|reflexivity].
+  destruct Ha, Hc; subst; reflexivity.
+Qed.
+
 Lemma shaped_value_01 : forall env b v,
   bclean b = true -> bool_shaped b = true -> beval_impl env b = Ok v -> v = 0 \/ v = 1.
 Proof.
@@ -150,13 +200,11 @@ Proof.
   - apply and4 in Hc. destruct Hc as (Hca & Hcc & Hsa & Hsc).
     destruct (beval_impl env a) as [va|] eqn:Ea; simpl in Hv; [|discriminate].
     destruct (beval_impl env c) as [vc|] eqn:Ec; simpl in Hv; [|discriminate].
-    try rewrite bool_table_and in Hv. simpl in Hv. inversion Hv.
-    destruct (va =? 0); [eapply IHa | eapply IHc]; eauto.
+    exact (and_row_01 va vc v (IHa va Hca Hsa eq_refl) (IHc vc Hcc Hsc eq_refl) Hv).
   - apply and4 in Hc. destruct Hc as (Hca & Hcc & Hsa & Hsc).
     destruct (beval_impl env a) as [va|] eqn:Ea; simpl in Hv; [|discriminate].
     destruct (beval_impl env c) as [vc|] eqn:Ec; simpl in Hv; [|discriminate].
-    try rewrite bool_table_or in Hv. simpl in Hv. inversion Hv.
-    destruct (va =? 0); [eapply IHc | eapply IHa]; eauto.
+    exact (or_row_01 va vc v (IHa va Hca Hsa eq_refl) (IHc vc Hcc Hsc eq_refl) Hv).
   - destruct (beval_impl env a) as [va|]; simpl in Hv; [|discriminate]. inversion Hv. apply b2z_01.
   - discriminate.
 Qed.
@@ -175,37 +223,22 @@ Proof.
     destruct (beval_impl env a) as [va|] eqn:Ea; simpl in *; rewrite <- IHa; simpl; [|reflexivity].
     rewrite to_opt_bind.
     destruct (beval_impl env c) as [vc|] eqn:Ec; simpl in *; rewrite <- IHc; simpl; [|reflexivity].
-    try rewrite bool_table_and; simpl.
-    destruct (shaped_value_01 env a va Ha H1 Ea) as [?|?], (shaped_value_01 env c vc Hc H0 Ec) as [?|?]; subst; reflexivity.
+    rewrite and_row_spec; [reflexivity | exact (shaped_value_01 env a va Ha H1 Ea) | exact (shaped_value_01 env c vc Hc H0 Ec)].
   - apply and4 in H. destruct H as (Ha & Hc & H1 & H0).
     rewrite to_opt_bind. specialize (IHa Ha). specialize (IHc Hc).
     destruct (beval_impl env a) as [va|] eqn:Ea; simpl in *; rewrite <- IHa; simpl; [|reflexivity].
     rewrite to_opt_bind.
     destruct (beval_impl env c) as [vc|] eqn:Ec; simpl in *; rewrite <- IHc; simpl; [|reflexivity].
-    try rewrite bool_table_or; simpl.
-    destruct (shaped_value_01 env a va Ha H1 Ea) as [?|?], (shaped_value_01 env c vc Hc H0 Ec) as [?|?]; subst; reflexivity.
+    rewrite or_row_spec; [reflexivity | exact (shaped_value_01 env a va Ha H1 Ea) | exact (shaped_value_01 env c vc Hc H0 Ec)].
   - rewrite to_opt_bind, (IHa H). destruct (beval_spec env a); reflexivity.
   - discriminate.
 Qed.
+Transparent bool_ops.
 
 (* non-vacuity: a clean boolean expression with nested logical operators *)
 Example bclean_instance :
   bclean (BOrL (BCmp CLt (BInt (ELit 1)) (BInt (EBin Add (ELit 2) (EVar 1)))) (BNot (BAndL (BInt (ELit 1)) (BCmp CEq (BInt (ELit 4)) (BInt (ELit 4)))))) = true.
 Proof. reflexivity. Qed.
-
-(* defined(x) is False for a defined x *)
-Theorem defined_refuted :
-  exists env x, is_defined env x = true /\ beval_impl env (BDefined x) = Ok 0 /\ beval_spec env (BDefined x) = Some 1.
-Proof. exists [(7%N, DInt 1)], 7%N. repeat split. Qed.
-
-(* a && b / a || b yield an operand, not a truth value: (2 && 3) == 1 is false *)
-Theorem logical_value_refuted :
-  beval_impl [] (BAndL (BInt (ELit 2)) (BInt (ELit 3))) = Ok 3 /\
-  beval_spec [] (BAndL (BInt (ELit 2)) (BInt (ELit 3))) = Some 1 /\
-  beval_impl [] (BCmp CEq (BAndL (BInt (ELit 2)) (BInt (ELit 3))) (BInt (ELit 1))) = Ok 0 /\
-  beval_spec [] (BCmp CEq (BAndL (BInt (ELit 2)) (BInt (ELit 3))) (BInt (ELit 1))) = Some 1 /\
-  beval_impl [] (BOrL (BInt (ELit 0)) (BInt (ELit 5))) = Ok 5.
-Proof. repeat split. Qed.
 
 (* ================================================================================================== *)
 (** * Constants resolve to their definitions                                                          *)
@@ -325,3 +358,519 @@ Qed.
 
 Lemma sev_ev : forall c e, no_size e = true -> sev c e = to_opt (ev c e).
 Proof. intros. unfold sev, ev. symmetry. apply expr_sem_except_known. assumption. Qed.
+
+Arguments lookup_legacy : simpl never.
+Arguments mem_flags : simpl never.
+Arguments u32 : simpl never.
+Arguments fill_word : simpl never.
+Arguments spec_fill_word : simpl never.
+Arguments resolve_keyblob : simpl never.
+Arguments load_binary : simpl never.
+Arguments lookup_file : simpl never.
+Arguments lookup_src : simpl never.
+Arguments bytes_cnt : simpl never.
+Arguments is_ext_mem : simpl never.
+Arguments Z.land : simpl never.
+Arguments Z.shiftl : simpl never.
+Arguments Z.modulo : simpl never.
+Arguments align_zeros : simpl never.
+
+Ltac split_hyps :=
+  repeat match goal with
+         | H : _ && _ = true |- _ => apply andb_true_iff in H; destruct H
+         end.
+Ltac use_sev c :=
+  repeat match goal with
+         | H : no_size ?e = true |- _ => rewrite (sev_ev c e H) in *; revert H
+         end; intros.
+Ltac destruct_evs :=
+  repeat match goal with
+         | |- context [ev ?c ?e] => let v := fresh "v" in let k := fresh "k" in destruct (ev c e) as [v|k]
+         end.
+Ltac zsubst :=
+  repeat match goal with
+         | H : (?v =? ?w) = true |- _ => apply Z.eqb_eq in H; subst
+         | H : negb (?v =? ?w) = false |- _ => apply negb_false_iff in H; apply Z.eqb_eq in H; subst
+         end.
+Ltac crunch :=
+  repeat (simpl;
+    match goal with
+    | |- context [match lookup_legacy ?s ?l with _ => _ end] => destruct (lookup_legacy s l) as [[?|]|]
+    | |- context [if ?b then _ else _] => destruct b eqn:?; zsubst
+    end); simpl; try reflexivity; try discriminate.
+Ltac boolfin :=
+  repeat match goal with
+   | H : negb _ = true |- _ => apply negb_true_iff in H
+   | H : negb _ = false |- _ => apply negb_false_iff in H
+   | H : _ && _ = true |- _ => apply andb_true_iff in H; destruct H
+   | H : _ && _ = false |- _ => apply andb_false_iff in H; destruct H
+   | H : _ || _ = false |- _ => apply orb_false_iff in H; destruct H
+   | H : _ || _ = true |- _ => apply orb_true_iff in H; destruct H
+   | H : (_ <? _) = true |- _ => apply Z.ltb_lt in H
+   | H : (_ <? _) = false |- _ => apply Z.ltb_ge in H
+   | H : (_ <=? _) = true |- _ => apply Z.leb_le in H
+   | H : (_ <=? _) = false |- _ => apply Z.leb_gt in H
+   | H : (_ =? _) = true |- _ => apply Z.eqb_eq in H
+   | H : (_ =? _) = false |- _ => apply Z.eqb_neq in H
+  end; try congruence; try lia.
+Lemma mem_flags_0 : mem_flags 0 = 0.
+Proof. reflexivity. Qed.
+Ltac fin := crunch; try rewrite mem_flags_0; try reflexivity; boolfin.
+Ltac prep c :=
+  unfold stmt_spec, spec_mem, spec_target, spec_arg; use_sev c;
+  unfold compile_impl, stmt_dict, d_load, d_memopt, d_target, d_callarg, d_ldata; destruct_evs; simpl; try reflexivity.
+Ltac run_helper :=
+  unfold helper; simpl; unfold run_handler; simpl;
+  unfold h_erase, h_enable, h_jump, h_call, h_version, h_keystore, h_fill, h_load, h_prog, h_keywrap, h_encrypt,
+         dint, opt_mem_id, get_mem_id, cmd_load, cmd_prog, guard, truthy.
+
+
+Lemma st_erase : forall c fs kbs o t, sclean (SErase o t) = true ->
+   to_opt (compile_impl c fs kbs (SErase o t)) = stmt_spec c fs kbs (SErase o t).
+Proof.
+  intros c fs kbs o t Hs. simpl in Hs. destruct o as [|s|e]; destruct t as [e1|e1 e2]; simpl in Hs; split_hyps.
+  all: prep c.
+  all: run_helper; crunch.
+Qed.
+Lemma st_erase_all : forall c fs kbs o, sclean (SEraseAll o) = true ->
+   to_opt (compile_impl c fs kbs (SEraseAll o)) = stmt_spec c fs kbs (SEraseAll o).
+Proof.
+  intros c fs kbs o Hs. simpl in Hs. destruct o as [|s|e]; simpl in Hs; split_hyps.
+  all: prep c.
+  all: run_helper; crunch.
+Qed.
+Lemma st_enable : forall c fs kbs o e, sclean (SEnable o e) = true ->
+   to_opt (compile_impl c fs kbs (SEnable o e)) = stmt_spec c fs kbs (SEnable o e).
+Proof.
+  intros c fs kbs o e0 Hs. simpl in Hs. destruct o as [|s|e]; simpl in Hs; split_hyps.
+  all: prep c.
+  all: run_helper; crunch.
+Qed.
+Lemma st_jump : forall c fs kbs t a, sclean (SCall true t a) = true ->
+   to_opt (compile_impl c fs kbs (SCall true t a)) = stmt_spec c fs kbs (SCall true t a).
+Proof.
+  intros c fs kbs t a Hs. simpl in Hs. destruct a as [| |e]; simpl in Hs; split_hyps.
+  all: prep c.
+  all: run_helper; crunch.
+Qed.
+Lemma st_jump_sp : forall c fs kbs sp t a, sclean (SJumpSp sp t a) = true ->
+   to_opt (compile_impl c fs kbs (SJumpSp sp t a)) = stmt_spec c fs kbs (SJumpSp sp t a).
+Proof.
+  intros c fs kbs sp t a Hs. simpl in Hs. destruct a as [| |e]; simpl in Hs; split_hyps.
+  all: prep c.
+  all: run_helper; crunch.
+Qed.
+Lemma st_version : forall c fs kbs n e, sclean (SVersionCheck n e) = true ->
+   to_opt (compile_impl c fs kbs (SVersionCheck n e)) = stmt_spec c fs kbs (SVersionCheck n e).
+Proof.
+  intros c fs kbs n e Hs. simpl in Hs.
+  all: prep c.
+  all: run_helper; crunch.
+Qed.
+
+Lemma ext_mem_cases : forall m, is_ext_mem m = true -> In m ext_mem_tags.
+Proof.
+  intros m H. unfold is_ext_mem in H. apply existsb_exists in H. destruct H as [x [Hin Hx]].
+  apply Z.eqb_eq in Hx. subst. assumption.
+Qed.
+Lemma ext_mem_flags : forall m, is_ext_mem m = true -> m <= 255 -> Z.land (Z.shiftl m 8) 65280 = Z.shiftl m 8.
+Proof.
+  intros m H1 H2. apply ext_mem_cases in H1. unfold ext_mem_tags in H1. simpl in H1.
+  repeat (destruct H1 as [H1|H1]; [subst; try reflexivity; try lia|]). contradiction.
+Qed.
+Lemma ext_mem_pos : forall m, is_ext_mem m = true -> 0 < m.
+Proof.
+  intros m H1. apply ext_mem_cases in H1. unfold ext_mem_tags in H1. simpl in H1.
+  repeat (destruct H1 as [H1|H1]; [subst; lia|]). contradiction.
+Qed.
+
+Lemma st_keystore : forall c fs kbs b o t, sclean (SKeystore b o t) = true ->
+   to_opt (compile_impl c fs kbs (SKeystore b o t)) = stmt_spec c fs kbs (SKeystore b o t).
+Proof.
+  intros c fs kbs b o t Hs. simpl in Hs. destruct o as [|s|e]; try discriminate. destruct t as [e1|e1 e2]; simpl in Hs; split_hyps.
+  all: prep c.
+  all: destruct b; run_helper; crunch.
+  all: boolfin.
+  all: try (rewrite ext_mem_flags by (assumption || lia); reflexivity).
+  all: try (exfalso; match goal with H : is_ext_mem ?v = true |- _ => pose proof (ext_mem_pos _ H); lia end).
+Qed.
+
+Lemma st_keywrap : forall c fs kbs id b a, sclean (SKeywrap id b a) = true ->
+   to_opt (compile_impl c fs kbs (SKeywrap id b a)) = stmt_spec c fs kbs (SKeywrap id b a).
+Proof.
+  intros c fs kbs id b a Hs. simpl in Hs. split_hyps.
+  prep c. run_helper. simpl.
+  destruct (resolve_keyblob kbs v) as [k|k]; simpl; [|reflexivity].
+  fin.
+Qed.
+
+Lemma st_fill : forall c fs kbs e t, sclean (SLoad MNone (LPattern e) t) = true ->
+   to_opt (compile_impl c fs kbs (SLoad MNone (LPattern e) t)) = stmt_spec c fs kbs (SLoad MNone (LPattern e) t).
+Proof.
+  intros c fs kbs e t Hs. simpl in Hs. destruct t as [e1|e1 e2]; simpl in Hs; split_hyps.
+  all: prep c.
+  all: run_helper; simpl.
+  all: rewrite <- fill_word_spec; destruct (fill_word v) as [w|k]; fin.
+Qed.
+
+Lemma st_prog : forall c fs kbs o e t, sclean (SLoad o (LPattern e) t) = true -> o <> MNone ->
+   to_opt (compile_impl c fs kbs (SLoad o (LPattern e) t)) = stmt_spec c fs kbs (SLoad o (LPattern e) t).
+Proof.
+  intros c fs kbs o e t Hs Ho. simpl in Hs. destruct o as [|s|eo]; [congruence| |]; destruct t as [e1|e1 e2]; simpl in Hs; split_hyps.
+  all: prep c.
+  all: run_helper; simpl.
+  all: try match goal with |- context [bytes_cnt ?p] => destruct (Z.ltb_spec 0 p); [rewrite (bytes_cnt_le4 p) by assumption|] end.
+  all: unfold u32; fin.
+  all: exfalso; match goal with H: 0 < ?p, H': 4 < bytes_cnt ?p |- _ =>
+         let X := fresh "X" in pose proof (bytes_cnt_le4 p H) as X; apply Z.leb_gt in H'; rewrite H' in X; symmetry in X; apply Z.ltb_ge in X; lia end.
+Qed.
+
+Lemma st_loadfile : forall c fs kbs o p t, sclean (SLoad o (LFile p) t) = true ->
+   to_opt (compile_impl c fs kbs (SLoad o (LFile p) t)) = stmt_spec c fs kbs (SLoad o (LFile p) t).
+Proof.
+  intros c fs kbs o p t Hs. simpl in Hs;
+  destruct o as [|s|eo]; destruct t as [e1|e1 e2]; simpl in Hs; split_hyps.
+  all: prep c.
+  all: destruct p as [|p0 p']; simpl.
+  all: run_helper; simpl; unfold load_binary.
+  all: try (destruct (lookup_file (p0 :: p') fs) as [bytes|]); fin.
+Qed.
+Lemma st_loadsrc : forall c fs kbs o x t, sclean (SLoad o (LSource x) t) = true ->
+   to_opt (compile_impl c fs kbs (SLoad o (LSource x) t)) = stmt_spec c fs kbs (SLoad o (LSource x) t).
+Proof.
+  intros c fs kbs o x t Hs. simpl in Hs;
+  destruct o as [|s|eo]; destruct t as [e1|e1 e2]; simpl in Hs; split_hyps.
+  all: prep c.
+  all: destruct (lookup_src x (srcs c)) as [p|]; simpl; try reflexivity.
+  all: try (destruct p as [|p0 p']; simpl).
+  all: run_helper; simpl; unfold load_binary.
+  all: try (destruct (lookup_file (p0 :: p') fs) as [bytes|]); fin.
+Qed.
+Lemma st_encrypt_file : forall c fs kbs id o p t, sclean (SEncrypt id o (LFile p) t) = true ->
+   to_opt (compile_impl c fs kbs (SEncrypt id o (LFile p) t)) = stmt_spec c fs kbs (SEncrypt id o (LFile p) t).
+Proof.
+  intros c fs kbs id o p t Hs. simpl in Hs;
+  destruct o as [|s|eo]; destruct t as [e1|e1 e2]; simpl in Hs; split_hyps.
+  all: prep c.
+  all: destruct p as [|p0 p']; simpl.
+  all: run_helper; simpl; unfold load_binary.
+  all: try (destruct (lookup_file (p0 :: p') fs) as [bytes|]); simpl; try reflexivity.
+  all: try (destruct (resolve_keyblob kbs v) as [k|k]; simpl; try reflexivity).
+  all: fin.
+Qed.
+Lemma st_encrypt_src : forall c fs kbs id o x t, sclean (SEncrypt id o (LSource x) t) = true ->
+   to_opt (compile_impl c fs kbs (SEncrypt id o (LSource x) t)) = stmt_spec c fs kbs (SEncrypt id o (LSource x) t).
+Proof.
+  intros c fs kbs id o x t Hs. simpl in Hs;
+  destruct o as [|s|eo]; destruct t as [e1|e1 e2]; simpl in Hs; split_hyps.
+  all: prep c.
+  all: destruct (lookup_src x (srcs c)) as [p|]; simpl; try reflexivity.
+  all: try (destruct p as [|p0 p']; simpl).
+  all: run_helper; simpl; unfold load_binary.
+  all: try (destruct (lookup_file (p0 :: p') fs) as [bytes|]); simpl; try reflexivity.
+  all: try (destruct (resolve_keyblob kbs v) as [k|k]; simpl; try reflexivity).
+  all: fin.
+Qed.
+
+Theorem stmt_sem_except_known :
+  forall c fs kbs s, sclean s = true -> to_opt (compile_impl c fs kbs s) = stmt_spec c fs kbs s.
+Proof.
+  intros c fs kbs s Hs. destruct s as [o d t|o t|o| |o e|j t a|sp t a| |n e|b o t|id b a|id o d t].
+  - destruct d as [e|p|x|b].
+    + destruct o as [|s|eo]; [apply st_fill; assumption | apply st_prog; [assumption|discriminate] | apply st_prog; [assumption|discriminate]].
+    + apply st_loadfile; assumption.
+    + apply st_loadsrc; assumption.
+    + simpl in Hs. discriminate.
+  - apply st_erase; assumption.
+  - apply st_erase_all; assumption.
+  - reflexivity.
+  - apply st_enable; assumption.
+  - destruct j; [apply st_jump; assumption | simpl in Hs; discriminate].
+  - apply st_jump_sp; assumption.
+  - simpl in Hs; discriminate.
+  - apply st_version; assumption.
+  - apply st_keystore; assumption.
+  - apply st_keywrap; assumption.
+  - destruct d as [e|p|x|b]; try (simpl in Hs; discriminate).
+    + apply st_encrypt_file; assumption.
+    + apply st_encrypt_src; assumption.
+Qed.
+
+(* whatever SPSDK accepts outside the finding classes is the specified command: never mis-translated *)
+Theorem stmt_never_mistranslated :
+  forall c fs kbs s cmd, sclean s = true -> compile_impl c fs kbs s = Ok cmd -> stmt_spec c fs kbs s = Some cmd.
+Proof.
+  intros c fs kbs s cmd Hs H. rewrite <- stmt_sem_except_known by assumption. rewrite H. reflexivity.
+Qed.
+
+(* non-vacuity: clean statements of every kind that compile to a command *)
+Example sclean_instances :
+  let c := {| vars := [(1%N, DInt 4096)]; srcs := [(2%N, [102%N])] |} in
+  let fs := [([102%N], [1%N; 2%N; 3%N])] in
+  let kbs := [(0, [("start", DInt 134217728); ("end", DInt 134218751); ("key", DStr (repeat 48%N 32)); ("counter", DStr (repeat 48%N 16))])] in
+  forallb (fun s => sclean s && is_ok (compile_impl c fs kbs s))
+    [SLoad MNone (LPattern (EBin Add (EVar 1) (ELit 85))) (TRange (ELit 8192) (EBin Mul (ELit 3) (EVar 1)));
+     SLoad (MName "fuse") (LPattern (ELit 1)) (TAddr (ELit 16777608));
+     SLoad (MName "sdcard") (LSource 2) (TAddr (ELit 134218120)); SLoad (MAt (ELit 288)) (LFile [102%N]) (TAddr (ELit 16));
+     SErase (MAt (ELit 288)) (TRange (ELit 134221824) (ELit 134247588)); SEraseAll (MAt (ELit 8)); SEraseUnsecureAll;
+     SEnable (MAt (ELit 9)) (ELit 1097728); SCall true (ELit 4294901760) (AArg (ELit 5)); SJumpSp (ELit 536874496) (ELit 4096) AEmpty;
+     SVersionCheck true (ELit 2); SKeystore true (MAt (ELit 9)) (TAddr (ELit 134219776));
+     SKeywrap (ELit 0) (repeat 1%N 16) (ELit 134217728); SEncrypt (ELit 0) MNone (LSource 2) (TAddr (ELit 134217728))] = true.
+Proof. vm_compute. reflexivity. Qed.
+
+(* ================================================================================================== *)
+(** * Unsupported constructs                                                                          *)
+(* ================================================================================================== *)
+Theorem unsupported_refused_except_known :
+  forall u, u <> U_section_options -> reduce_unsupported u = Err 1%N.
+Proof. intros u H. destruct u; try (vm_compute; reflexivity). congruence. Qed.
+
+(* docs/usage/elf2sb.md: "section_options is not supported and raises syntax error when used" -- it is accepted *)
+Theorem section_options_refuted : reduce_unsupported U_section_options = Ok tt.
+Proof. vm_compute. reflexivity. Qed.
+
+(* ================================================================================================== *)
+(** * One statement, one command                                                                      *)
+(* ================================================================================================== *)
+Lemma mapM_length {A B} (f : A -> res B) : forall l r, mapM f l = Ok r -> List.length r = List.length l.
+Proof.
+  induction l as [|a t IH]; simpl; intros r H.
+  - inversion H. reflexivity.
+  - destruct (f a) as [b|k]; simpl in H; [|discriminate].
+    destruct (mapM f t) as [bs|k]; simpl in H; [|discriminate]. inversion H. simpl. f_equal. apply IH. reflexivity.
+Qed.
+
+Lemma mapM_Forall2 {A B} (f : A -> res B) (P : A -> B -> Prop) :
+  (forall a b, f a = Ok b -> P a b) -> forall l r, mapM f l = Ok r -> Forall2 P l r.
+Proof.
+  intros HP. induction l as [|a t IH]; simpl; intros r H.
+  - inversion H. constructor.
+  - destruct (f a) as [b|k] eqn:E; simpl in H; [|discriminate].
+    destruct (mapM f t) as [bs|k]; simpl in H; [|discriminate]. inversion H. constructor; [apply HP; assumption | apply IH; reflexivity].
+Qed.
+
+(* load_from_config: when it succeeds, every section of the configuration yields one section of commands and every
+   statement dictionary of a section yields exactly one command, in order; and parsing keeps one dictionary per statement *)
+Theorem exactly_one_command :
+  (forall fs cf l, load_config fs cf = Ok l ->
+     Forall2 (fun sec cmds => List.length cmds = List.length (snd sec)) (cf_sections cf) l) /\
+  (forall p cf, parse_program p = Ok cf ->
+     Forall2 (fun s sec => List.length (snd sec) = List.length (snd s)) (p_sections p) (cf_sections cf)).
+Proof.
+  split.
+  - intros fs cf l H. unfold load_config in H. destruct (cf_opts cf); [|discriminate].
+    eapply mapM_Forall2; [|exact H]. intros sec cmds Hc. simpl in Hc. eapply mapM_length. exact Hc.
+  - intros p cf H. unfold parse_program in H.
+    destruct (run_blocks (p_extern p) st0 (p_blocks p)) as [st|k]; simpl in H; [|discriminate].
+    destruct (mapM _ (p_sections p)) as [secs|k] eqn:E; simpl in H; [|discriminate]. inversion H. simpl.
+    eapply mapM_Forall2; [|exact E]. intros s sec Hs. unfold parse_section in Hs.
+    destruct (eval_impl _ (fst s)); simpl in Hs; [|discriminate].
+    destruct (mapM _ (snd s)) as [ds|k] eqn:E2; simpl in Hs; [|discriminate]. inversion Hs. simpl. eapply mapM_length. exact E2.
+Qed.
+
+Local Close Scope Z_scope.
+(* ================================================================================================== *)
+(** * The printer is inverted by the precedence parser                                                *)
+(* ================================================================================================== *)
+Lemma lvl_pos : forall o, (1 <= lvl o)%nat.
+Proof. destruct o; vm_compute; lia. Qed.
+Opaque lvl size_lvl unary_lvl.
+
+Definition stops (m : nat) (ts : list token) : Prop :=
+  match ts with
+  | TSize _ :: _ => (size_lvl < m)%nat
+  | TOp o :: _ => (lvl o < m)%nat
+  | _ => True
+  end.
+
+Lemma stops_mono : forall m m' ts, (m <= m')%nat -> stops m ts -> stops m' ts.
+Proof. intros m m' [|[z|x|o| | |s] t] H; simpl; intros; try exact I; lia. Qed.
+
+Lemma loop_stops : forall pe n m lhs ts, stops m ts -> parse_loop pe (S n) m lhs ts = Some (lhs, ts).
+Proof.
+  intros pe n m lhs [|[z|x|o| | |s] t] H; simpl in *; try reflexivity.
+  - replace (Nat.leb m (lvl o)) with false by (symmetry; apply Nat.leb_gt; assumption). reflexivity.
+  - replace (Nat.leb m size_lvl) with false by (symmetry; apply Nat.leb_gt; assumption). reflexivity.
+Qed.
+
+Definition pe_le (p q : operand_parser) : Prop := forall m ts r, p m ts = Some r -> q m ts = Some r.
+
+Lemma atom_mono : forall p q ts r, pe_le p q -> parse_atom p ts = Some r -> parse_atom q ts = Some r.
+Proof.
+  intros p q ts r H. destruct ts as [|[z|x|o| | |s] t]; simpl; try (intros; assumption).
+  - destruct o; try (intros; assumption).
+    + destruct (p (S unary_lvl) t) as [[e r']|] eqn:E; [|discriminate]. rewrite (H _ _ _ E). auto.
+    + destruct (p (S unary_lvl) t) as [[e r']|] eqn:E; [|discriminate]. rewrite (H _ _ _ E). auto.
+  - destruct (p 0%nat t) as [[e r']|] eqn:E; [|discriminate]. rewrite (H _ _ _ E). auto.
+Qed.
+
+Lemma loop_mono : forall p q, pe_le p q -> forall n n' m lhs ts r, (n <= n')%nat ->
+  parse_loop p n m lhs ts = Some r -> parse_loop q n' m lhs ts = Some r.
+Proof.
+  intros p q H. induction n as [|n IH]; intros n' m lhs ts r Hn; simpl; [discriminate|].
+  destruct n' as [|n']; [lia|]. simpl.
+  destruct ts as [|[z|x|o| | |s] t]; try (intros; assumption).
+  - destruct (Nat.leb m (lvl o) && negb (Nat.eqb (lvl o) 0)); [|auto].
+    destruct (p (S (lvl o)) t) as [[rhs r']|] eqn:E; [|discriminate]. rewrite (H _ _ _ E). apply IH. lia.
+  - destruct (Nat.leb m size_lvl); [|auto]. apply IH. lia.
+Qed.
+
+Lemma expr_mono : forall f f', (f <= f')%nat -> pe_le (parse_expr f) (parse_expr f').
+Proof.
+  induction f as [|f IH]; intros f' Hf m ts r; simpl; [discriminate|].
+  destruct f' as [|f']; [lia|]. simpl. assert (Hle : pe_le (parse_expr f) (parse_expr f')) by (apply IH; lia).
+  destruct (parse_atom (parse_expr f) ts) as [[a r']|] eqn:E; [|discriminate].
+  rewrite (atom_mono _ _ _ _ Hle E). apply loop_mono; [assumption | lia].
+Qed.
+
+Lemma expr_S : forall f m ts, parse_expr (S f) m ts =
+  match parse_atom (parse_expr f) ts with None => None | Some (a, r) => parse_loop (parse_expr f) f m a r end.
+Proof. reflexivity. Qed.
+Lemma loop_op : forall pe n m lhs o r, (m <= lvl o)%nat ->
+  parse_loop pe (S n) m lhs (TOp o :: r) =
+  match pe (S (lvl o)) r with Some (rhs, r') => parse_loop pe n m (EBin o lhs rhs) r' | None => None end.
+Proof.
+  intros. simpl. replace (Nat.leb m (lvl o)) with true by (symmetry; apply Nat.leb_le; assumption).
+  replace (Nat.eqb (lvl o) 0) with false by (symmetry; apply Nat.eqb_neq; pose proof (lvl_pos o); lia). reflexivity.
+Qed.
+Lemma loop_size : forall pe n m lhs s r, (m <= size_lvl)%nat ->
+  parse_loop pe (S n) m lhs (TSize s :: r) = parse_loop pe n m (ESize lhs s) r.
+Proof.
+  intros. simpl. replace (Nat.leb m size_lvl) with true by (symmetry; apply Nat.leb_le; assumption). reflexivity.
+Qed.
+Lemma atom_num : forall pe z r, parse_atom pe (TNum z :: r) = Some (ELit z, r).
+Proof. reflexivity. Qed.
+Lemma atom_id : forall pe x r, parse_atom pe (TId x :: r) = Some (EVar x, r).
+Proof. reflexivity. Qed.
+Lemma atom_lp : forall pe r, parse_atom pe (TLp :: r) =
+  match pe 0%nat r with Some (e, TRp :: r') => Some (e, r') | _ => None end.
+Proof. reflexivity. Qed.
+Lemma atom_neg : forall pe r, parse_atom pe (TOp Sub :: r) =
+  match pe (S unary_lvl) r with Some (e, r') => Some (ENeg e, r') | None => None end.
+Proof. reflexivity. Qed.
+Lemma atom_pos : forall pe r, parse_atom pe (TOp Add :: r) =
+  match pe (S unary_lvl) r with Some (e, r') => Some (EPos e, r') | None => None end.
+Proof. reflexivity. Qed.
+Arguments parse_expr : simpl never.
+Arguments parse_loop : simpl never.
+Arguments parse_atom : simpl never.
+
+Fixpoint cost (m : nat) (e : expr) : nat :=
+  match e with
+  | ELit _ | EVar _ => 1
+  | EBin o a b => let c := cost (lvl o) a + cost (S (lvl o)) b + 2 in if Nat.leb m (lvl o) then c else c + 2
+  | ENeg a | EPos a => cost (S unary_lvl) a + 4
+  | ESize a s => let c := cost size_lvl a + 2 in if Nat.leb m size_lvl then c else c + 2
+  end%nat.
+
+Lemma app_assoc' {A} (a b c : list A) : (a ++ b) ++ c = a ++ (b ++ c).
+Proof. symmetry. apply app_assoc. Qed.
+
+Lemma parse_print_loop : forall e, canonical e = true -> forall m k rest F r,
+  (k <= m)%nat -> stops (S m) rest ->
+  parse_loop (parse_expr F) F k e rest = Some r ->
+  parse_expr (S (F + cost m e)) k (print_at m e ++ rest) = Some r.
+Proof.
+  induction e as [z|x|o a IHa b IHb|a IHa|a IHa|a IHa s]; intros Hc m k rest F r Hk Hst Hl.
+  - (* literal *)
+    simpl in Hc. apply Z.leb_le in Hc. simpl print_at.
+    replace (z <? 0)%Z with false by (symmetry; apply Z.ltb_ge; assumption). simpl app.
+    rewrite expr_S, atom_num. eapply loop_mono; [apply expr_mono| |exact Hl]; lia.
+  - simpl print_at. simpl app. rewrite expr_S, atom_id. eapply loop_mono; [apply expr_mono| |exact Hl]; lia.
+  - (* binary *)
+    simpl in Hc. apply andb_true_iff in Hc. destruct Hc as [Hca Hcb].
+    assert (Hnp : forall m k rest F r, (m <= lvl o)%nat -> (k <= m)%nat -> stops (S m) rest ->
+              parse_loop (parse_expr F) F k (EBin o a b) rest = Some r ->
+              parse_expr (S (F + (cost (lvl o) a + cost (S (lvl o)) b + 2))) k
+                         ((print_at (lvl o) a ++ TOp o :: print_at (S (lvl o)) b) ++ rest) = Some r).
+    { clear m k rest F r Hk Hst Hl. intros m k rest F r Hm Hk Hst Hl.
+      rewrite app_assoc'. simpl app.
+      replace (S (F + (cost (lvl o) a + cost (S (lvl o)) b + 2)))
+        with (S ((F + cost (S (lvl o)) b + 2) + cost (lvl o) a)) by lia.
+      apply (IHa Hca (lvl o) k (TOp o :: print_at (S (lvl o)) b ++ rest) (F + cost (S (lvl o)) b + 2)%nat r); [lia | simpl; lia |].
+      replace (F + cost (S (lvl o)) b + 2)%nat with (S (F + cost (S (lvl o)) b + 1)) by lia.
+      rewrite loop_op by lia.
+      assert (Hb : parse_expr (S (F + cost (S (lvl o)) b + 1)) (S (lvl o)) (print_at (S (lvl o)) b ++ rest) = Some (b, rest)).
+      { replace (S (F + cost (S (lvl o)) b + 1)) with (S ((F + 1) + cost (S (lvl o)) b)) by lia.
+        apply (IHb Hcb (S (lvl o)) (S (lvl o)) rest (F + 1)%nat (b, rest)); [lia | eapply stops_mono; [|exact Hst]; lia |].
+        replace (F + 1)%nat with (S F) by lia. apply loop_stops. eapply stops_mono; [|exact Hst]. lia. }
+      rewrite Hb.
+      eapply loop_mono; [apply expr_mono| |exact Hl]; lia. }
+    simpl print_at. simpl cost. destruct (Nat.leb m (lvl o)) eqn:Em.
+    + apply Nat.leb_le in Em. apply (Hnp m); assumption.
+    + (* parenthesised *)
+      unfold paren. simpl app. rewrite app_assoc'. simpl app.
+      replace (S (F + (cost (lvl o) a + cost (S (lvl o)) b + 2 + 2)))
+        with (S (S ((F + 1) + (cost (lvl o) a + cost (S (lvl o)) b + 2)))) by lia.
+      rewrite expr_S, atom_lp.
+      rewrite (Hnp 0%nat 0%nat (TRp :: rest) (F + 1)%nat (EBin o a b, TRp :: rest)); [| lia | lia | exact I |].
+      * eapply loop_mono; [apply expr_mono| |exact Hl]; lia.
+      * replace (F + 1)%nat with (S F) by lia. apply loop_stops. exact I.
+  - (* unary minus *)
+    simpl in Hc. simpl print_at. simpl cost. unfold paren. simpl app. rewrite app_assoc'. simpl app.
+    replace (S (F + (cost (S unary_lvl) a + 4))) with (S (S (S ((F + 2) + cost (S unary_lvl) a)))) by lia.
+    remember (S ((F + 2) + cost (S unary_lvl) a)) as G.
+    assert (Ha : parse_expr G (S unary_lvl) (print_at (S unary_lvl) a ++ TRp :: rest) = Some (a, TRp :: rest)).
+    { subst G. apply (IHa Hc (S unary_lvl) (S unary_lvl) (TRp :: rest) (F + 2)%nat (a, TRp :: rest)); [lia | exact I |].
+      replace (F + 2)%nat with (S (F + 1)) by lia. apply loop_stops. exact I. }
+    rewrite expr_S, atom_lp, expr_S, atom_neg, Ha.
+    rewrite HeqG at 2. rewrite loop_stops by exact I.
+    eapply loop_mono; [apply expr_mono| |exact Hl]; lia.
+  - (* unary plus *)
+    simpl in Hc. simpl print_at. simpl cost. unfold paren. simpl app. rewrite app_assoc'. simpl app.
+    replace (S (F + (cost (S unary_lvl) a + 4))) with (S (S (S ((F + 2) + cost (S unary_lvl) a)))) by lia.
+    remember (S ((F + 2) + cost (S unary_lvl) a)) as G.
+    assert (Ha : parse_expr G (S unary_lvl) (print_at (S unary_lvl) a ++ TRp :: rest) = Some (a, TRp :: rest)).
+    { subst G. apply (IHa Hc (S unary_lvl) (S unary_lvl) (TRp :: rest) (F + 2)%nat (a, TRp :: rest)); [lia | exact I |].
+      replace (F + 2)%nat with (S (F + 1)) by lia. apply loop_stops. exact I. }
+    rewrite expr_S, atom_lp, expr_S, atom_pos, Ha.
+    rewrite HeqG at 2. rewrite loop_stops by exact I.
+    eapply loop_mono; [apply expr_mono| |exact Hl]; lia.
+  - (* size suffix: a postfix operator of level size_lvl (0 when PERIOD has no precedence) *)
+    simpl in Hc.
+    assert (Hnp : forall m k rest F r, (m <= size_lvl)%nat -> (k <= m)%nat ->
+              parse_loop (parse_expr F) F k (ESize a s) rest = Some r ->
+              parse_expr (S (F + (cost size_lvl a + 2))) k ((print_at size_lvl a ++ [TSize s]) ++ rest) = Some r).
+    { clear m k rest F r Hk Hst Hl. intros m k rest F r Hm Hk Hl.
+      rewrite app_assoc'. simpl app.
+      replace (S (F + (cost size_lvl a + 2))) with (S ((F + 2) + cost size_lvl a)) by lia.
+      apply (IHa Hc size_lvl k (TSize s :: rest) (F + 2)%nat r); [lia | simpl; lia |].
+      replace (F + 2)%nat with (S (F + 1)) by lia. rewrite loop_size by lia.
+      eapply loop_mono; [apply expr_mono| |exact Hl]; lia. }
+    simpl print_at. simpl cost. destruct (Nat.leb m size_lvl) eqn:Em.
+    + apply Nat.leb_le in Em. apply (Hnp m); assumption.
+    + unfold paren. simpl app. rewrite app_assoc'. simpl app.
+      replace (S (F + (cost size_lvl a + 2 + 2))) with (S (S ((F + 1) + (cost size_lvl a + 2)))) by lia.
+      rewrite expr_S, atom_lp.
+      rewrite (Hnp 0%nat 0%nat (TRp :: rest) (F + 1)%nat (ESize a s, TRp :: rest)); [| lia | lia |].
+      * eapply loop_mono; [apply expr_mono| |exact Hl]; lia.
+      * replace (F + 1)%nat with (S F) by lia. apply loop_stops. exact I.
+Qed.
+
+Lemma cost_le_length : forall e m, (cost m e <= 2 * List.length (print_at m e))%nat.
+Proof.
+  induction e as [z|x|o a IHa b IHb|a IHa|a IHa|a IHa s]; intros m; simpl.
+  - destruct (z <? 0)%Z; simpl; lia.
+  - lia.
+  - specialize (IHa (lvl o)). specialize (IHb (S (lvl o))).
+    destruct (Nat.leb m (lvl o)); unfold paren; simpl; repeat rewrite app_length; simpl; repeat rewrite app_length; simpl; lia.
+  - specialize (IHa (S unary_lvl)). unfold paren. simpl. rewrite app_length. simpl. lia.
+  - specialize (IHa (S unary_lvl)). unfold paren. simpl. rewrite app_length. simpl. lia.
+  - specialize (IHa size_lvl).
+    destruct (Nat.leb m size_lvl); unfold paren; simpl; repeat rewrite app_length; simpl; repeat rewrite app_length; simpl; lia.
+Qed.
+
+Theorem print_parse : forall e, canonical e = true -> parse_tokens (print_expr e) = Some e.
+Proof.
+  intros e Hc. unfold parse_tokens, print_expr.
+  assert (H : parse_expr (S (1 + cost 0 e)) 0 (print_at 0 e ++ []) = Some (e, [])).
+  { apply parse_print_loop; [assumption | lia | exact I | reflexivity]. }
+  rewrite app_nil_r in H.
+  assert (Hf : (S (1 + cost 0 e) <= 2 * List.length (print_at 0 e) + 2)%nat) by (pose proof (cost_le_length e 0%nat); lia).
+  rewrite (expr_mono _ _ Hf _ _ _ H). reflexivity.
+Qed.
+
+Example print_parse_instance :
+  canonical (EBin Mul (EBin Mul (ELit 2) (ENeg (ELit 3))) (ESize (EBin Add (ELit 4) (EVar 1)) SzB)) = true /\
+  parse_tokens (print_expr (EBin Sub (ELit 1) (EBin Sub (ELit 2) (ELit 3)))) = Some (EBin Sub (ELit 1) (EBin Sub (ELit 2) (ELit 3))).
+Proof. split; vm_compute; reflexivity. Qed.
